@@ -244,6 +244,31 @@ FilesAt(j) ==
        IN  \* a missing file; a directory
            Cli("files", rd \o <<IF q <= Len(Readers) THEN "/nonexistent/file" ELSE "/">>, MnEnv, "", NoFiles)
 
+\* ---- text that an error message may ECHO, with a multi-byte character at every byte offset ----------------------
+\* n ASCII letters, then U+00E9 / U+20AC / U+1F600, then a tail: whatever a parser does with text it refuses - quote it,
+\* shorten it, index into it - must work at every offset of the first non-ASCII character (n = 0..300 and around
+\* 512, 1024, 4096, 65536)
+EchoLens == [i \in 1..301 |-> i - 1] \o <<509, 510, 511, 512, 513, 1021, 1022, 1023, 1024, 1025, 4093, 4094, 4095, 4096, 4097, 65534, 65535, 65536>>
+EchoText(j) ==
+  LET n == EchoLens[1 + ((j - 1) % Len(EchoLens))]
+      c == <<<<195, 169>>, <<226, 130, 172>>, <<240, 159, 152, 128>>>>[1 + (j % 3)]
+  IN  S(Rep(n, 97) \o c \o StrToUtf8("xyz"))
+NEcho == Len(EchoLens) * 9
+EchoAt(j) ==
+  LET t == EchoText(j)
+      k == (j - 1) \div Len(EchoLens)
+      td(ty, v) == TdDoc(NObj(<<DomT, <<"P", NArr(<<Member("f", ty)>>)>>, <<"Q", NArr(<<Member("g", "uint8")>>)>> >>), NStr("P"), Dom, NObj(<< <<"f", v>> >>))
+  IN  IF k = 0 THEN It("typeddata", "echo_offsets", [doc |-> td("Q", NStr(t))])              \* a string where an object is expected
+      ELSE IF k = 1 THEN It("typeddata", "echo_offsets", [doc |-> td("uint8[]", NStr(t))])   \* ... an array
+      ELSE IF k = 2 THEN It("typeddata", "echo_offsets", [doc |-> td("uint256", NStr(t))])   \* ... a number
+      ELSE IF k = 3 THEN It("typeddata", "echo_offsets", [doc |-> td(t, NNum("1"))])         \* as a type name
+      ELSE IF k = 4 THEN It("tx.sign", "echo_offsets", [doc |-> NObj(<< <<"nonce", NStr(t)>>, <<"gasPrice", NNum("1")>>, <<"gas", NNum("1")>>, <<"value", NNum("0")>>, <<"data", NStr("0x")>> >>),
+                                                            key |-> "0000000000000000000000000000000000000000000000000000000000000002"])
+      ELSE IF k = 5 THEN It("mnemonic.parse", "echo_offsets", [text |-> "abandon " \o t \o " about"])
+      ELSE IF k = 6 THEN It("path.parse", "echo_offsets", [text |-> "m/" \o t])
+      ELSE IF k = 7 THEN It("sig.parse", "echo_offsets", [text |-> "0x" \o t])
+      ELSE It("eip712.member_kind", "echo_offsets", [text |-> t \o "[2]"])
+
 O1 == NPath
 O2 == O1 + NSig
 O3 == O2 + NPhrase
@@ -256,7 +281,8 @@ O9 == O8 + NTypeStr
 O10 == O9 + NRand
 O11 == O10 + NCliSlots
 O12 == O11 + NThreads
-Count == O12 + NFiles
+O13 == O12 + NFiles
+Count == O13 + NEcho
 ItemAt(g) ==
   IF g <= O1 THEN PathAt(g)
   ELSE IF g <= O2 THEN SigAt(g - O1)
@@ -270,7 +296,8 @@ ItemAt(g) ==
   ELSE IF g <= O10 THEN RandAt(g - O9)
   ELSE IF g <= O11 THEN CliSlotAt(g - O10)
   ELSE IF g <= O12 THEN ThreadsAt(g - O11)
-  ELSE FilesAt(g - O12)
+  ELSE IF g <= O13 THEN FilesAt(g - O12)
+  ELSE EchoAt(g - O13)
 Histories == IF "VERIF_TIER" \in DOMAIN IOEnv /\ IOEnv.VERIF_TIER = "thorough" THEN 300 ELSE 40
 VARIABLE n
 INSTANCE GenBase
